@@ -379,7 +379,8 @@ class _GroupElem(ABC):
 
         for d in range(dof_n):
             columns = np.arange(d, ndof, dof_n)
-            assembly[:, columns] = np.array(connect) * dof_n + d
+            # widened first: the product must not wrap in a narrow integer type of the connectivity
+            assembly[:, columns] = np.asarray(connect, dtype=np.int64) * dof_n + d
 
         return assembly
 
